@@ -38,8 +38,8 @@ WEIGHTS = {"update_attrs": 0.2, "add_edge": 5, "delete_edge": 4, "delete_node": 
 
 
 def plan(tier, seed):
-    specs = common.session_plan(PROP, tier, seed, quick=480, thorough=10000)
-    specs.append({"kind": "construct", "n": 400 if tier == "quick" else 6000,
+    specs = common.session_plan(PROP, tier, seed, quick=2400, thorough=40000)
+    specs.append({"kind": "construct", "n": 1500 if tier == "quick" else 20000,
                   "seed": common.seed_for(PROP, tier, seed, "construct")})
     return specs
 
